@@ -374,14 +374,14 @@ func (g *gen) targetOp(t *target) string {
 func (g *gen) randomDef(label string, avail []string, out string) *target {
 	pkg := pkgOf(label)
 	t := &target{Label: label, Out: out}
-	switch g.r.Intn(14) {
+	switch g.r.Intn(17) {
 	case 0:
 		t.Kind, t.Const = "const", lib.Pick(g.r, constPool)
 	case 10, 11:
 		t.Kind = "catn"
-	case 12:
+	case 12, 14:
 		t.Kind = "opt"
-	case 13:
+	case 13, 15, 16:
 		if strings.HasSuffix(out, ".out") || strings.HasSuffix(out, ".o2") { // only for fresh definitions: out = source name
 			t.Kind = "fg"
 			f := lib.Pick(g.r, []string{"x.txt", "y.txt"})
@@ -478,6 +478,20 @@ func (g *gen) edit(run *lib.Run) {
 			return
 		}
 		t := g.randomDef(l, g.safeDeps(l), g.s.targets[l].Out)
+		// optional outputs linger on disk under <out>.extra (known finding): keep that confined to targets that are
+		// and stay of kind opt, so the snapshot rule "an opt target's tree includes <out>.extra" is exact
+		if (g.s.targets[l].Kind == "opt") != (t.Kind == "opt") {
+			if t.Kind == "cat" || t.Kind == "catfirst" || t.Kind == "catn" || t.Kind == "opt" {
+				t.Kind = g.s.targets[l].Kind
+				if t.Kind != "opt" && t.Kind != "cat" && t.Kind != "catfirst" && t.Kind != "catn" {
+					run.Count("edit-none")
+					return
+				}
+			} else {
+				run.Count("edit-none")
+				return
+			}
+		}
 		// a consumer of a directory must stay well-formed for mkdir consumers: mkdir reads a file, never a label
 		g.emit(g.targetOp(t))
 		run.Count("edit-redefine")
@@ -546,7 +560,71 @@ func (g *gen) history(run *lib.Run, steps int) []string {
 		l, out := g.newLabel()
 		g.emit(g.targetOp(g.randomDef(l, append([]string{}, g.s.order...), out)))
 	}
+	sinks := func() []string {
+		var req []string
+		for _, l := range g.s.order {
+			if len(g.s.dependents(l)) == 0 {
+				req = append(req, l)
+			}
+		}
+		return req
+	}
+	buildOps := func(req []string) {
+		g.ops = append(g.ops, "build "+strings.Join(req, ","))
+		if *mode != "c03" || g.r.Chance(30) {
+			g.ops = append(g.ops, "clean "+strings.Join(req, ","))
+		}
+	}
+	// source files (transitively) used by the requested targets
+	filesOf := func(req []string) []string {
+		var out []string
+		seen := map[string]bool{}
+		for _, l := range g.s.closure(req) {
+			for _, x := range g.s.targets[l].Srcs {
+				if !isLabel(x) && !seen[pkgOf(l)+"/"+x] {
+					seen[pkgOf(l)+"/"+x] = true
+					out = append(out, pkgOf(l)+"/"+x)
+				}
+			}
+		}
+		sort.Strings(out)
+		return out
+	}
 	for st := 0; st < steps; st++ {
+		switch tpl := g.r.Intn(10); {
+		case st > 0 && tpl <= 1 && len(g.s.files) > 0:
+			// template "no-op, then edit": build, build again with nothing changed, edit one source in place, build
+			req := sinks()
+			buildOps(req)
+			buildOps(req)
+			if fs := filesOf(req); len(fs) > 0 {
+				f := lib.Pick(g.r, fs)
+				g.writeFile(filepath.Dir(f), filepath.Base(f))
+			}
+			buildOps(req)
+			run.Count("template-noop-then-edit")
+			continue
+		case st > 0 && tpl <= 3 && len(g.s.files) > 0:
+			// template "A, B, A": build state A, move one source to another content, build, (wipe plz-out), restore A, build
+			req := sinks()
+			fs := filesOf(req)
+			if len(fs) == 0 {
+				break
+			}
+			f := lib.Pick(g.r, fs)
+			a := g.s.files[f]
+			buildOps(req)
+			g.writeFile(filepath.Dir(f), filepath.Base(f))
+			buildOps(req)
+			if *mode == "c02" && g.r.Chance(60) {
+				g.ops = append(g.ops, "wipe")
+				run.Count("edit-wipe")
+			}
+			g.emit("file " + f + " " + hx(a))
+			buildOps(req)
+			run.Count("template-aba")
+			continue
+		}
 		if st > 0 {
 			ne := g.r.Intn(3)
 			if ne == 0 {
@@ -559,11 +637,7 @@ func (g *gen) history(run *lib.Run, steps int) []string {
 		// what to build: usually the sinks, sometimes a random subset
 		var req []string
 		if g.r.Chance(60) {
-			for _, l := range g.s.order {
-				if len(g.s.dependents(l)) == 0 {
-					req = append(req, l)
-				}
-			}
+			req = sinks()
 		} else {
 			for _, l := range g.s.order {
 				if g.r.Chance(40) {
@@ -574,10 +648,7 @@ func (g *gen) history(run *lib.Run, steps int) []string {
 				req = []string{lib.Pick(g.r, g.s.order)}
 			}
 		}
-		g.ops = append(g.ops, "build "+strings.Join(req, ","))
-		if *mode != "c03" || g.r.Chance(30) {
-			g.ops = append(g.ops, "clean "+strings.Join(req, ","))
-		}
+		buildOps(req)
 	}
 	return g.ops
 }
